@@ -366,6 +366,44 @@ def _raises(cx, t, lab):
     return bool(nodes) and all(n.kind in ('raise', 'stmt') and not (n.kind == 'stmt' and n.ast is None) for n in nodes) and any(n.kind == 'raise' for n in nodes)
 
 
+def _outer_checked_by_paths(P, cx, chk, want, always_tl):
+    """with with_tl true every path to <Model>.parse(..) passes a parse_and_check_tl call whose expected type folds to `want` there"""
+    from .common import explore
+    from ..loader import NOVALUE
+    parses = [n for (n, c) in calls_in_ctx(cx, attr='parse')]
+    chk_nodes = {cx.node_of(c).id for c in chk}
+    if not parses:
+        return False
+
+    def atom(e):
+        return True if ast.unparse(e) == 'with_tl' else None
+    # the check written as the argument itself: <Model>.parse(parse_and_check_tl(w, T) if with_tl else w, ..)
+    inline_ok = []
+    for (n, c) in calls_in_ctx(cx, attr='parse'):
+        a0 = c.args[0] if c.args else None
+        if isinstance(a0, ast.IfExp) and ast.unparse(a0.test) == 'with_tl' and any(a0.body is k for k in chk):
+            inline_ok.append(a0.body)
+    if inline_ok and len(inline_ok) == len(chk):
+        return all(len(k.args) >= 2 and P.const_value(cx.f.mod, k.args[1]) == want for k in chk)
+    reach = explore(cx, atom, stop=chk_nodes)
+    if any(n.id in reach for n in parses) and not always_tl:
+        return False          # the model parse is reachable without the outer check
+    live = explore(cx, atom)
+    for c in chk:
+        if len(c.args) < 2:
+            return False
+        vals = set()
+        for s_ in cx.sources(cx.node_of(c), c.args[1], live=live):
+            e_ = s_.expr if s_.kind == 'expr' else None
+            if isinstance(e_, ast.IfExp) and ast.unparse(e_.test) == 'with_tl':
+                e_ = e_.body
+            v = P.const_value(cx.f.mod, e_) if e_ is not None else NOVALUE
+            vals.add(v if v is not NOVALUE else '?')
+        if vals - {None} != {want}:
+            return False
+    return True
+
+
 def run(R):
     P = R.P
     M = models_of(P)
@@ -421,6 +459,8 @@ def run(R):
         wt = [t for t in cx.cfg.nodes if t.kind == 'test' and ast.unparse(t.ast) == 'with_tl']
         if len(chk) == 1 and P.const_value(cx.f.mod, chk[0].args[1]) == want and (wt or always_tl):
             R.ok('C07.GRD.1', inst, site(cx, chk[0]))
+        elif chk and _outer_checked_by_paths(P, cx, chk, want, always_tl):
+            R.ok('C07.GRD.1', inst, site(cx, chk[0]), 'by paths: with the outer TL every path to the model parse passes parse_and_check_tl(.., expected type)')
         else:
             R.fail('C07.GRD.1', inst, q, 'def ' + cx.f.node.name, f'outer type 0x{want:02x} / exact length is not checked', site(cx, cx.f.node))
     # ------------------------------------------------------------------ TBL.1
